@@ -14,10 +14,17 @@ import time
 from pathlib import Path
 
 VERIF = Path("/verif")
-REPO = Path("/repo")
-COQ = VERIF / "coq"
-WORK = VERIF / ".work"
-EVID = VERIF / "evidence"
+# The tree under verification.  /repo by default; VERIF_REPO lets a developer
+# point the whole machinery at a scratch worktree (seeded-mutation trials)
+# without touching /repo: the Coq development is then built in a private copy
+# (Gen/ is regenerated from that tree) and evidence goes to a private directory.
+REPO = Path(os.environ.get("VERIF_REPO", "/repo")).resolve()
+ALT = REPO != Path("/repo")
+_TAG = hashlib.sha1(str(REPO).encode()).hexdigest()[:10]
+WORK = (VERIF / ".work" / ("alt-" + _TAG)) if ALT else (VERIF / ".work")
+COQ_SRC = VERIF / "coq"
+COQ = (WORK / "coq") if ALT else COQ_SRC
+EVID = (WORK / "evidence") if ALT else (VERIF / "evidence")
 REPLAYS = EVID / "replays"
 
 FORBIDDEN = re.compile(
@@ -152,20 +159,28 @@ def scan_forbidden() -> list[str]:
                     "Hypotheses",
                 ):
                     continue
-                hits.append(f"{p.relative_to(VERIF)}:{ln}: {line.strip()}")
+                hits.append(f"{p.relative_to(COQ)}:{ln}: {line.strip()}")
     return hits
 
 
 def coq_build(jobs: int = 16, clean: bool = False) -> tuple[bool, str]:
     """Regenerate Gen/, then a full .vo build of the development (incremental
     unless clean).  Serialised with flock.  Returns (ok, log)."""
-    WORK.mkdir(exist_ok=True)
+    WORK.mkdir(parents=True, exist_ok=True)
     lock = open(WORK / "build.lock", "w")
     fcntl.flock(lock, fcntl.LOCK_EX)
     try:
         log = ""
+        if ALT:
+            COQ.mkdir(parents=True, exist_ok=True)
+            _run(
+                f"rsync -a --delete --exclude='/Gen/*' --include='*/' --include='*.v' --exclude='*' "
+                f"{COQ_SRC}/ {COQ}/"
+            )
+        (COQ / "Gen").mkdir(exist_ok=True)
         rc, out = _run(
-            [sys.executable, str(VERIF / "translate" / "run_all.py")], timeout=600
+            [sys.executable, str(VERIF / "translate" / "run_all.py"), str(REPO), str(COQ / "Gen")],
+            timeout=600,
         )
         log += out
         if rc != 0:
@@ -271,9 +286,13 @@ def classify_axioms(axioms: list[str]) -> tuple[list[str], list[str], list[str]]
 # ---------------------------------------------------------------- findings
 def load_known_findings() -> dict:
     p = VERIF / "known_findings.json"
-    if not p.exists():
-        return {"findings": [], "fixed": []}
-    return json.loads(p.read_text())
+    out = {"findings": [], "fixed": []}
+    files = ([p] if p.exists() else []) + sorted((VERIF / "known_findings.d").glob("*.json"))
+    for f in files:
+        d = json.loads(f.read_text())
+        out["findings"] += d.get("findings", [])
+        out["fixed"] += d.get("fixed", [])
+    return out
 
 
 def write_replay(prop: str, payload: dict) -> Path:
@@ -286,7 +305,7 @@ def write_replay(prop: str, payload: dict) -> Path:
 
 def write_evidence(prop: str, tier: str, seed: int, coverage: dict, wall: float,
                    violations: int, assumptions: list[str]):
-    EVID.mkdir(exist_ok=True)
+    EVID.mkdir(parents=True, exist_ok=True)
     ev = {
         "property_id": prop,
         "tier": tier,
